@@ -82,7 +82,7 @@ Lemma run_job_cases st now j mn mx ch failed wnow fr :
   let r := run_job st now j mn mx ch failed wnow fr in
   dels (r_state r) = dels st \/
   dels (r_state r) = map (d_null_link ch) (del_ids d_id ch (dels st)) \/
-  (exists st1 fr1 w n, sweep_each st (sort_ids ch) wnow fr = (st1, fr1, w, n) /\ r_state r = st1 /\
+  (exists st1 fr1 w n, sweep_each st ch wnow fr = (st1, fr1, w, n) /\ r_state r = st1 /\
      r_notes r = (if choice_legal (job_matches st JDeadLetterSweep now mn) ch mx then []
                   else ["illegal-choice"]) ++ n ++ leftover fr1).
 Proof.
@@ -91,7 +91,7 @@ Proof.
   destruct j; try (left; reflexivity); try (right; left; reflexivity).
   - left. destruct (existsb (topic_has_messages st) ch); reflexivity.
   - right; right.
-    destruct (sweep_each st (sort_ids ch) wnow fr) as [[[st1 fr1] w] n] eqn:E.
+    destruct (sweep_each st ch wnow fr) as [[[st1 fr1] w] n] eqn:E.
     exists st1, fr1, w, n. auto.
 Qed.
 
@@ -441,7 +441,7 @@ Proof.
       destruct (choice_legal (job_matches st JDeadLetterSweep now min_age) chosen max) eqn:CL; [|discriminate].
       apply sweep_each_good in ES.
       eapply good_completed; [exact ES|exact En1|exact ND|exact Hd| |exact Hd'|exact E].
-      intros C. apply in_sort_ids in C.
+      intros C.
       unfold choice_legal in CL. apply andb_prop in CL. destruct CL as [CL _].
       apply andb_prop in CL. destruct CL as [_ CL].
       rewrite forallb_forall in CL. specialize (CL _ C). apply mem_id_in in CL.
